@@ -61,7 +61,12 @@ func (e Engine) Gen(seed uint64, idx int, tier string) interface{} {
 		// the file name and line they carry, belong to one compilation each
 		if r.Chance(1, 2) {
 			for i := 0; i < 1+r.Intn(2); i++ {
-				sc.Sources = append(sc.Sources, strings.Repeat("\n", r.Intn(4))+isolation.BadSources[r.Intn(len(isolation.BadSources))])
+				bad := isolation.BadSources[r.Intn(len(isolation.BadSources))]
+				if r.Chance(1, 3) {
+					// truncated input (error raised by the lexer / parser at end of input)
+					bad = []string{"x = (\n", "if x:\n", "def f(a,\n", "s = \"\"\"abc\n", "v = [1,\n  2,\n", "class C:\n"}[r.Intn(6)]
+				}
+				sc.Sources = append(sc.Sources, strings.Repeat("\n", r.Intn(4))+bad)
 			}
 		}
 		return sc
